@@ -56,6 +56,12 @@ func init() {
 //	        zero, max (2^64-1), abs (V)
 //	reset   ResetWithIndex(index); At: abs (V), next+ (next+V), next- (next-V, floored at 0), first
 //	restart a new buffer is created on the same kv
+//	readfill RecordsFrom(index) (At: first or mid) immediately followed by N records, N >= the
+//	        constructor size: the ring wraps over the slots the returned records came from
+//
+// Every non-empty RecordsFrom result is held (with a copy of what it contained when it was
+// returned) and re-checked after every later op and at the end: a returned result is the
+// caller's, it must not change when the log moves on.
 type BOp struct {
 	K  string `json:"k"`
 	N  int    `json:"n,omitempty"`
@@ -81,7 +87,7 @@ func genBuffer(t *rapid.T) BCase {
 	n := rapid.IntRange(3, 40).Draw(t, "nops")
 	for i := 0; i < n; i++ {
 		var op BOp
-		op.K = rapid.SampledFrom([]string{"rec", "rec", "rec", "rec", "from", "from", "from", "from", "reset", "restart"}).Draw(t, "kind")
+		op.K = rapid.SampledFrom([]string{"rec", "rec", "rec", "rec", "from", "from", "from", "from", "reset", "restart", "readfill", "readfill"}).Draw(t, "kind")
 		switch op.K {
 		case "rec":
 			switch rapid.IntRange(0, 9).Draw(t, "recKind") {
@@ -104,6 +110,13 @@ func genBuffer(t *rapid.T) BCase {
 			op.At = rapid.SampledFrom([]string{"first-1", "first", "first+1", "mid", "mid", "next-1", "next", "next+1", "zero", "max", "abs"}).Draw(t, "at")
 			if op.At == "mid" || op.At == "abs" {
 				op.V = uint64(rapid.IntRange(0, 400).Draw(t, "v"))
+			}
+		case "readfill":
+			op.At = rapid.SampledFrom([]string{"first", "mid", "mid"}).Draw(t, "at")
+			op.V = uint64(rapid.IntRange(0, 400).Draw(t, "v"))
+			op.N = c.Size + rapid.IntRange(0, 3).Draw(t, "over")
+			if op.N < 1 {
+				op.N = 1
 			}
 		case "reset":
 			op.At = rapid.SampledFrom([]string{"abs", "next+", "next-", "first"}).Draw(t, "at")
@@ -184,7 +197,43 @@ func runBuffer(c BCase) (vkit.Info, error) {
 	wrapped, exact, inWin, outWin, restarts, resets := false, false, 0, 0, 0, 0
 	// records since the last reset; -1 = no reset since the buffer was created
 	sinceReset := -1
+	// results of earlier RecordsFrom calls, with what they contained when they were returned
+	type heldResult struct {
+		op   int
+		idx  uint64
+		got  []*core.RegionInfo
+		snap []*core.RegionInfo
+	}
+	var held []heldResult
+	heldOverwritten := false
+	checkHeld := func(when string) error {
+		for _, hr := range held {
+			if len(hr.got) != len(hr.snap) {
+				return fmt.Errorf("%s: the result of RecordsFrom(%d) returned at op %d changed length %d -> %d", when, hr.idx, hr.op, len(hr.snap), len(hr.got))
+			}
+			for k := range hr.snap {
+				if hr.got[k] != hr.snap[k] {
+					return fmt.Errorf("%s: the result of RecordsFrom(%d) returned at op %d was records %v; the caller's slice now shows %v (entry %d is record %v, was %v): the log handed out its live ring (capacity %d)",
+						when, hr.idx, hr.op, rids(hr.snap), rids(hr.got), k, rid(hr.got[k]), rid(hr.snap[k]), m.capacity)
+				}
+			}
+		}
+		return nil
+	}
+	type step struct {
+		BOp
+		src int
+	}
+	var steps []step
 	for i, op := range c.Ops {
+		if op.K == "readfill" {
+			steps = append(steps, step{BOp{K: "from", At: op.At, V: op.V}, i}, step{BOp{K: "rec", N: op.N}, i})
+		} else {
+			steps = append(steps, step{op, i})
+		}
+	}
+	for _, stp := range steps {
+		i, op := stp.src, stp.BOp
 		switch op.K {
 		case "rec":
 			for k := 0; k < op.N; k++ {
@@ -242,6 +291,10 @@ func runBuffer(c BCase) (vkit.Info, error) {
 					return info, fmt.Errorf("op %d: RecordsFrom(%d) returned %d records %v, window [%d,%d) (capacity %d) holds %d from there: %v",
 						i, idx, len(got), rids(got), m.first(), m.next, m.capacity, len(want), rids(want))
 				}
+				held = append(held, heldResult{op: i, idx: idx, got: got, snap: append([]*core.RegionInfo(nil), want...)})
+				if len(held) > 12 {
+					held = held[1:]
+				}
 				for k := range want {
 					if got[k] != want[k] {
 						return info, fmt.Errorf("op %d: RecordsFrom(%d)[%d] is record %v, want record %v (window [%d,%d), capacity %d)",
@@ -292,6 +345,20 @@ func runBuffer(c BCase) (vkit.Info, error) {
 		if got := h.GetNextIndex(); got != m.next {
 			return info, fmt.Errorf("op %d (%s): next index %d, model %d", i, op.K, got, m.next)
 		}
+		if err := checkHeld(fmt.Sprintf("after op %d (%s)", i, op.K)); err != nil {
+			return info, err
+		}
+		if op.K == "rec" && !heldOverwritten {
+			// a held result whose first record has left the window: its ring slots have been reused
+			for _, hr := range held {
+				if hr.idx < m.first() || hr.idx >= m.next {
+					heldOverwritten = true
+				}
+			}
+		}
+	}
+	if err := checkHeld("at the end"); err != nil {
+		return info, err
 	}
 	// final sweep over the whole window and both edges
 	for idx := m.first(); idx != m.next; idx++ {
@@ -316,6 +383,7 @@ func runBuffer(c BCase) (vkit.Info, error) {
 	info.ClassIf(c.Start != 0, "preloaded-index")
 	info.ClassIf(inWin > 0, "read-in-window")
 	info.ClassIf(outWin > 0, "read-outside")
+	info.ClassIf(heldOverwritten, "held-result-outlived-window")
 	info.NonTrivial = wrapped && inWin > 0 && outWin > 0
 	return info, nil
 }
